@@ -615,7 +615,10 @@ Section ConnProofs.
       level, and sends exactly the body it declares — in any split between the head's segment and later *)
   Definition polite (h : hreq Q) : Prop :=
     q_known_host (h_q h) = true /\ h_action h <> ADrop /\ total h = declared h.
-  Definition app_ok : Prop := forall a q, reply_ok (snd (fst (app a q))).
+  (** the application keeps an invariant [I] of its state (e.g. "every cached response is well formed") under
+      which what it returns satisfies [reply_ok] *)
+  Definition app_ok (I : A -> Prop) : Prop :=
+    forall a q, I a -> reply_ok (snd (fst (app a q))) /\ I (fst (fst (app a q))).
   Definition packages_ok : Prop := forall q, package_ok (package q).
 
   Lemma after_body_polite (h : hreq Q) (lim : option N) :
@@ -627,30 +630,31 @@ Section ConnProofs.
     - rewrite <- Ht. destruct lim; lia.
   Qed.
 
-  Hypothesis Happ : app_ok.
+  Variable I : A -> Prop.
+  Hypothesis Happ : app_ok I.
   Hypothesis Hpk : packages_ok.
 
-  Lemma conn_polite : forall hs a, Forall polite hs ->
+  Lemma conn_polite : forall hs a, I a -> Forall polite hs ->
     exists ss,
       conn_run Q A q_method q_content_length q_known_host q_head app error_body package too_many_body true true a (Open []) hs
         = (map Some ss, Open []) /\
       serve_seq Q A q_method app error_body package too_many_body true a hs = map Ok ss /\
       Forall2 framed (map (fun h => q_method (h_q h)) hs) ss.
   Proof.
-    induction hs as [|h hs IH]; intros a Hp.
+    induction hs as [|h hs IH]; intros a Ia Hp.
     - exists []. repeat split. constructor.
     - inversion Hp as [|? ? Hh Hrest]; subst. pose proof Hh as (Hk & Hd & Ht).
       cbn [conn_run serve_seq]. unfold conn_step. rewrite Hk. cbn [negb].
       destruct (h_action h) eqn:Ea; [| |congruence].
       + destruct (app a (h_q h)) as [[a' r] lim] eqn:Eapp.
-        pose proof (Happ a (h_q h)) as Hr. rewrite Eapp in Hr. cbn [fst snd] in Hr.
+        pose proof (Happ a (h_q h) Ia) as [Hr Ia']. rewrite Eapp in Hr, Ia'. cbn [fst snd] in Hr, Ia'.
         destruct (send_never_panics error_body (package (h_q h)) (Hpk (h_q h)) (q_method (h_q h)) r Hr) as (s & Es).
         rewrite Es. rewrite (after_body_polite h lim Hh).
-        destruct (IH a' Hrest) as (ss & E1 & E2 & E3). rewrite E1, E2.
+        destruct (IH a' Ia' Hrest) as (ss & E1 & E2 & E3). rewrite E1, E2.
         exists (s :: ss). repeat split. cbn [map]. constructor; [|assumption].
         exact (send_framed error_body (package (h_q h)) (Hpk (h_q h)) _ r s Hr Es).
       + rewrite (after_body_polite h None Hh).
-        destruct (IH a Hrest) as (ss & E1 & E2 & E3). rewrite E1, E2.
+        destruct (IH a Ia Hrest) as (ss & E1 & E2 & E3). rewrite E1, E2.
         exists (limited too_many_body true (q_method (h_q h)) :: ss). repeat split.
         cbn [map]. constructor; [apply limited_framed | assumption].
   Qed.
@@ -658,7 +662,7 @@ Section ConnProofs.
   Lemma written_somes ss : written (map Some ss) = concat (map wire ss).
   Proof. unfold written. rewrite map_map. reflexivity. Qed.
 
-  Lemma one_response_per_request_lemma hs a : Forall polite hs ->
+  Lemma one_response_per_request_lemma hs a : I a -> Forall polite hs ->
     exists ss,
       conn_run Q A q_method q_content_length q_known_host q_head app error_body package too_many_body true true a (Open []) hs
         = (map Some ss, Open []) /\
@@ -666,7 +670,7 @@ Section ConnProofs.
       serve_seq Q A q_method app error_body package too_many_body true a hs = map Ok ss /\
       parse_responses (map (fun h => q_method (h_q h)) hs) (written (map Some ss)) = Some (map observable ss).
   Proof.
-    intros Hp. destruct (conn_polite hs a Hp) as (ss & E1 & E2 & E3). exists ss.
+    intros Ia Hp. destruct (conn_polite hs a Ia Hp) as (ss & E1 & E2 & E3). exists ss.
     split; [assumption|]. split.
     - apply forall2_length in E3. rewrite map_length in E3. symmetry. assumption.
     - split; [assumption|]. rewrite written_somes. apply framing_roundtrip_forall2. assumption.
